@@ -26,3 +26,17 @@ Qed.
 
 Example ex_plain_ttml_ok : ttml_plain_ok ex_plain.
 Proof. vm_compute. reflexivity. Qed.
+
+(* the same instance with the decoder over the XML parser model for hand-written documents (what the plain view
+   registers for TTML sources): [xml_parse2] also inverts the writer's bytes (Proofs/Parse2Written.v) *)
+From Astisub Require Import Kit.XmlParse2 Proofs.TtmlDoc Proofs.Parse2Written.
+Theorem ttml_plain_faithful2 : plain_faithful 1000000 ttml_plain_ok ttml_enc ttml_dec2.
+Proof.
+  intros p Hp. destruct (write_read (ttml_of_plain p) ttml_default_indent Hp eq_refl) as (t0 & Hw & Hread).
+  assert (Hb : write_ttml_bytes ttml_default_indent (ttml_of_plain p) = Ok (print_node print_name ttml_default_indent 0 t0))
+    by (unfold write_ttml_bytes; rewrite Hw; reflexivity).
+  assert (Hi : indent_ok ttml_default_indent = true) by reflexivity.
+  destruct (parse2_written (ttml_of_plain p) ttml_default_indent _ Hi Hb) as (t1 & Hw1 & Hp2). rewrite Hw in Hw1. inversion Hw1; subst t1.
+  exists (print_node print_name ttml_default_indent 0 t0). split; [exact Hb|].
+  unfold ttml_dec2, dec_with, read_ttml_bytes2. rewrite Hp2, Hread. f_equal. apply ttml_to_plain_written.
+Qed.
